@@ -5,3 +5,6 @@ mod c01;
 #[cfg(any(verif_all, verif_c02))]
 #[path = "/verif/harness/ntp-proto/c02.rs"]
 mod c02;
+#[cfg(any(verif_all, verif_c37))]
+#[path = "/verif/harness/ntp-proto/c37.rs"]
+mod c37;
